@@ -136,6 +136,30 @@ Theorem c18_retrieve_on_cut_line_refuted :
 Proof. exact retrieve_on_cut_line_refuted. Qed.
 Print Assumptions c18_retrieve_on_cut_line_refuted.
 
+(* Order of the two reads inside one fetch.  The worker runs concurrently: any
+   sequence of snapshots in which the text only grows and the process has exited
+   only once everything is written.  Reading the STATUS first (moment i) and
+   std.out after it (moment j >= i), as _all_trial_results does: whenever the
+   fetch says "exited" it carries all reports — for every valid stream, every
+   worker behaviour, every pair of moments.  (Tuner.run never polls a trial
+   again once it is reported completed/failed.) *)
+Theorem c18_fetch_status_first_complete :
+  forall cs tr i j, noise_ok cs = true -> payloads_ok cs = true ->
+    worker_trace (length (render cs)) tr -> (i <= j < length tr)%nat ->
+    fst (fetch_status_then_text cs tr i j) = true ->
+    snd (fetch_status_then_text cs tr i j) = payloads_of cs.
+Proof. exact fetch_status_first_complete. Qed.
+Print Assumptions c18_fetch_status_first_complete.
+
+(* with the two reads swapped the statement is false: the worker writes its
+   report and exits between them; the fetch says "exited" and carries nothing *)
+Theorem c18_fetch_text_first_refuted :
+  exists cs tr i j, noise_ok cs = true /\ payloads_ok cs = true /\
+    worker_trace (length (render cs)) tr /\ (i <= j < length tr)%nat /\
+    fetch_text_then_status cs tr i j = (true, []) /\ payloads_of cs <> [].
+Proof. exact fetch_text_first_refuted. Qed.
+Print Assumptions c18_fetch_text_first_refuted.
+
 (* DESIGN's "rejected reports do not advance the counter" is FALSE of the code
    for reports rejected by serialisation: self.iter += 1 runs before
    _report_logger.  (The property itself only asks for strictly increasing.) *)
